@@ -51,3 +51,10 @@ CHECKS["C01"] = dict(
     text="CrossHair explores every path of the real `lint` command body (exit status) and of ProjectReport/FileReport generation for 1 and 2 covered files with symbolic facts (licence expression class, copyright present, read error) and symbolic LICENSES/ contents (three identifiers, absent / ID.txt / extension-less), and confirms exit 0 <=> clauses (a)-(d) hold and that each category names exactly the offenders the model names.",
     note="Stubs as C06. Bound: <= 2 files, representatives of each identifier class. File discovery, header reading and precedence are owned by C03/C02/C04. Known finding: unprovided LicenseRef- also listed as bad.",
 )
+
+CHECKS["C13"] = dict(
+    engine="XH",
+    technique="symbolic execution (CrossHair + z3): solver-driven exhaustive exploration of project states through the real formatters and the lint / lint-file command bodies, outputs parsed back and compared",
+    text="For every project state in the bound (2 files x expression class x copyright x read error x LICENSES contents) CrossHair runs the real format_plain / format_json / format_lines, the real lint command body with each of --quiet/--json/--plain/--lines, and the real lint-file body for every subset F; the postcondition is that the per-category sets parsed from each format are equal to the report's, the JSON summary counts equal the sizes of the JSON's own lists, all exit statuses agree with is_compliant, and lint-file prints exactly the per-file lines of lint --lines restricted to F and exits 1 iff it printed any.",
+    note="Partial: path spelling / working directory and >2 items per category are outside. After the solver fixes a state all values are concrete, so the solver contributes exhaustive feasibility-checked exploration, not reasoning about the strings themselves.",
+)
